@@ -51,7 +51,7 @@ AllFmts == {"deb", "rpm", "apk", "archlinux", "ipk"}
 InvalidFor(class) ==
   CASE class = "none" -> {} [] class = "deb_compression" -> {"deb"} [] class = "rpm_compression" -> {"rpm"}
     [] class = "content_type" -> AllFmts [] class = "deb_signature_type" -> {"deb"} [] class \in {"rpm_epoch", "rpm_epoch_range", "rpm_epoch_negative"} -> {"rpm"}   \* an rpm epoch is an unsigned 32-bit number
-    [] class = "platform" -> {"apk", "archlinux"} [] class = "arch_name" -> {"archlinux"} [] class = "missing_name" -> AllFmts
+    [] class = "platform" -> {"apk", "archlinux"} [] class \in {"arch_name", "arch_name_hyphen", "arch_name_dot", "arch_name_dashes"} -> {"archlinux"}   \* may not start with hyphen or dot [] class = "missing_name" -> AllFmts
     [] class = "wrong_passphrase" -> {"deb", "rpm", "apk"} [] OTHER -> {}
 
 TraceInvalid ==
